@@ -52,6 +52,11 @@
      parser is wrong)                                                             [4]
      operation after Return [8]; trace without Return [9].
 
+   The content ids that Create / OpenW write are PART OF THE TRACE (the harness numbers the
+   writes): the acceptor constrains WHERE a run reads, looks and writes, not WHAT it writes.
+   That what is written is computed from the inputs only is data flow inside the Python
+   process; it is covered by the tie (digests of the outputs across histories), not here.
+
    PROGRAMS (bottom of the file): a trace is what ONE run did on ONE file system.  A
    program is a function from the history of observations (what its OpenR / ListDir /
    Stat operations returned) to its next operation; `prun` runs it on a file system
